@@ -232,7 +232,11 @@ def split_delay_tags(series, hed_schema, onsets):
             if delay is None:
                 # The delay cannot be converted to default units (e.g. its unit has no conversion factor): leave in place
                 continue
-            onset_mod = delay + float(onsets[i])
+            try:
+                onset_mod = delay + float(onsets[i])
+            except ValueError:
+                # A row without a time (n/a onset) cannot be shifted: leave the group in place
+                continue
             to_remove.append(group)
             insert_index = split_df['original_index'].index.max() + 1
             split_df.loc[insert_index] = {'HED': str(group), 'onset': onset_mod, 'original_index': i}
